@@ -1,0 +1,25 @@
+//go:build verif
+// +build verif
+
+package xmpp
+
+import "sync/atomic"
+
+// VerifPoint, when set by the verification harness, is called at a few named
+// points of the IQ request/response path so that the harness can own the
+// schedule there (park the calling goroutine until its generated schedule
+// releases it). Only compiled with the "verif" build tag.
+var verifPointFn atomic.Value // of func(point, id string)
+
+func VerifSetPoint(f func(point, id string)) {
+	if f == nil {
+		f = func(string, string) {}
+	}
+	verifPointFn.Store(f)
+}
+
+func verifPoint(point, id string) {
+	if f, ok := verifPointFn.Load().(func(point, id string)); ok && f != nil {
+		f(point, id)
+	}
+}
